@@ -277,6 +277,9 @@ def sequences(tier, seed):
         for cl in (CL if tier != 'quick' else ['b103', 'b100', 'b121']):
             for op in BYCL:
                 out.append(['fc', 'f8', cst, 'bb78563412', cl, op])      # the same population under every seed: known findings are keyed by the last instruction
+        # divisions with a dividend that fits (edx cleared / sign-extended first), 32-, 16- and 8-bit
+        for pre, op in (('31d2', 'f7f3'), ('99', 'f7fb'), ('31d2', '66f7f3'), ('6699', '66f7fb'), ('b400', 'f6f3'), ('6698', 'f6fb')):
+            out.append(['fc', 'f8', cst, 'bb78563412', pre, op])
     return out
 
 # ------------------------------------------------------------------------------------------------ rep
